@@ -18,6 +18,12 @@ struct P { a: u8, b: u16 }
 impl ConstDefault for P { const DEFAULT: P = P { a: 0xAB, b: 0xCDEF }; }
 impl Default for P { fn default() -> P { P::DEFAULT } }
 const fn eq_p(x: &P) -> bool { x.a == 0xAB && x.b == 0xCDEF }
+/// neither Copy nor Clone: the constant default must not need either
+#[derive(PartialEq, Debug)]
+struct NC { a: u16 }
+impl ConstDefault for NC { const DEFAULT: NC = NC { a: 0x1234 }; }
+impl Default for NC { fn default() -> NC { NC::DEFAULT } }
+const fn eq_nc(x: &NC) -> bool { x.a == 0x1234 }
 const fn eq_u8(x: &u8) -> bool { *x == 0 }
 const fn eq_u64(x: &u64) -> bool { *x == 0 }
 const fn eq_a3(x: &[u8; 3]) -> bool { x[0] == 0 && x[1] == 0 && x[2] == 0 }
@@ -25,7 +31,7 @@ const fn eq_nested(x: &GenericArray<u8, U3>) -> bool { let s = x.as_slice(); s.l
 const fn eq_np(x: &GenericArray<P, U2>) -> bool { let s = x.as_slice(); s.len() == 2 && eq_p(&s[0]) && eq_p(&s[1]) }
 '''
 
-TYPES = [("u8", "u8", "eq_u8"), ("u64", "u64", "eq_u64"), ("a3", "[u8; 3]", "eq_a3"), ("nested", "GenericArray<u8, U3>", "eq_nested"), ("P", "P", "eq_p"), ("nestedP", "GenericArray<P, U2>", "eq_np")]
+TYPES = [("u8", "u8", "eq_u8"), ("u64", "u64", "eq_u64"), ("a3", "[u8; 3]", "eq_a3"), ("nested", "GenericArray<u8, U3>", "eq_nested"), ("P", "P", "eq_p"), ("nestedP", "GenericArray<P, U2>", "eq_np"), ("NC", "NC", "eq_nc")]
 LENS = list(range(0, 65)) + [100, 127, 128, 255, 256, 1000, 1023, 1024, 2047, 2048, 4095, 4096, 8192, 10000]
 EXPR = {3000: "Prod<U1000, U3>", 3500: "Prod<U500, U7>", 4097: "Add1<U4096>", 5000: "Prod<U1000, U5>", 6000: "Prod<U1000, U6>", 12000: "Prod<U1000, U12>"}
 LENS += list(EXPR)
